@@ -263,6 +263,8 @@ def is_stringy(p: Poly) -> bool:
     return a is not None and a[0] in ("str", "tpl", "join")
 
 
+_LAMBDAS: Dict[str, Any] = {}
+
 _OPERATOR_FUNCS: Dict[str, Any] = {
     "add": ast.Add, "sub": ast.Sub, "mul": ast.Mult, "floordiv": ast.FloorDiv, "truediv": ast.Div, "mod": ast.Mod,
     "lshift": ast.LShift, "rshift": ast.RShift, "and_": ast.BitAnd, "or_": ast.BitOr, "xor": ast.BitXor, "pow": ast.Pow,
@@ -1143,6 +1145,11 @@ class PyFlow:
             return out
         if isinstance(e, (ast.BoolOp, ast.Compare)):
             return [(q, C(int(t))) for q, t in self.cond(e, p, depth)]
+        if isinstance(e, ast.Lambda) and not e.args.vararg and not e.args.kwarg and not e.args.kwonlyargs:
+            # a function value: called later through the local / table entry that holds it
+            key_l = f"{getattr(e, 'lineno', 0)}:{getattr(e, 'col_offset', 0)}:{id(e)}"
+            _LAMBDAS[key_l] = (e, {k_: v_ for k_, v_ in p.env.items() if k_ in self.self_names})
+            return [(p, Poly.atom(("lambda", key_l)))]
         if isinstance(e, ast.IfExp):
             out = []
             for q, t in self.cond(e.test, p, depth):
@@ -1618,6 +1625,24 @@ class PyFlow:
         if alias_name is None and isinstance(f, ast.Name) and f.id in p.env and f.id not in self.funcs and f.id not in p.funcs:
             # the function / class called is itself a computed value (class_ = pick(...); class_(...))
             callee_val = p.env[f.id]
+            la_ = single_atom(callee_val)
+            if la_ is not None and la_[0] == "lambda" and la_[1] in _LAMBDAS and depth < self.max_depth and not e.keywords:
+                lam, _cap = _LAMBDAS[la_[1]]
+                params_l = [a_.arg for a_ in lam.args.args]
+                if len(params_l) == len(e.args):
+                    outl2 = []
+                    for q, vals in self.ev_many(list(e.args), p, depth, no_effect=no_effect):
+                        saved_l = {pn_: q.env.get(pn_) for pn_ in params_l}
+                        for pn_, v_ in zip(params_l, vals):
+                            q.env[pn_] = v_
+                        for q2, rv_ in self.ev(lam.body, q, depth + 1, no_effect=no_effect):
+                            for pn_, old_ in saved_l.items():
+                                if old_ is None:
+                                    q2.env.pop(pn_, None)
+                                else:
+                                    q2.env[pn_] = old_
+                            outl2.append((q2, rv_))
+                    return outl2
         if alias_name is not None and alias_recv is not None and depth < self.max_depth:
             # a bound method of a known receiver held in a local: the call is that method call
             ra_ = single_atom(alias_recv)
